@@ -7,6 +7,7 @@ mod shp;
 mod cmd_shape;
 mod fontgen;
 mod e2e;
+mod flaggen;
 #[cfg(rustybuzz_verif)]
 mod bufops;
 #[cfg(rustybuzz_verif)]
